@@ -98,7 +98,9 @@ static std::string handle(const std::string& cmd, const Args& a)
 	if (cmd == "BLOCK") {      // single block encryption (check values)
 		auto c = BlockCipher::create_or_throw(hexstr_unescape(S(a, "alg")));
 		c->set_key(H(a, "key")); auto in = H(a, "in"); std::vector<uint8_t> out(in.size());
-		c->encrypt_n(in.data(), out.data(), in.size() / c->block_size());
+		if (in.size() % c->block_size()) throw std::runtime_error("input is not a multiple of the block size");
+		if (S(a, "dir") == "dec") c->decrypt_n(in.data(), out.data(), in.size() / c->block_size());
+		else c->encrypt_n(in.data(), out.data(), in.size() / c->block_size());
 		return okout(out);
 	}
 	if (cmd == "KEYWRAP") {    // RFC 3394 / RFC 5649
